@@ -30,6 +30,7 @@ import (
 	"github.com/atlassian/gostatsd/pkg/stats"
 	"github.com/atlassian/gostatsd/pkg/statsd"
 	"github.com/atlassian/gostatsd/pkg/transport"
+	"github.com/atlassian/gostatsd/pkg/web"
 	"github.com/atlassian/gostatsd/verifhooks"
 
 	"verifharness/internal/fakes"
@@ -86,7 +87,17 @@ func (u *upstream) RoundTrip(req *http.Request) (*http.Response, error) {
 	var msg pb.RawMessageV2
 	ids := []string{}
 	var shared int64
-	if err := proto.Unmarshal(b, &msg); err == nil {
+	var derr error
+	switch req.Header.Get("Content-Encoding") { // what the receiving gostatsd does with the body
+	case web.ZlibContentEncoding:
+		b, derr = web.DecompressWithZlib(b)
+	case web.Lz4ContentEncoding:
+		b, derr = web.DecompressWithLz4(b)
+	}
+	if derr == nil {
+		derr = proto.Unmarshal(b, &msg)
+	}
+	if err := derr; err == nil {
 		for name, tm := range msg.Counters {
 			for _, c := range tm.TagMap {
 				if strings.HasPrefix(name, "d") {
@@ -208,10 +219,15 @@ func runSchedule(t *testing.T, tw *trace.Writer, c *scase, idx int, res *vh.Resu
 			w = -1
 		}
 		var fwd *statsd.HttpForwarderHandlerV2
+		// the body is sent as it is, or compressed (the default configuration) -- which of the two says nothing about what it holds
+		compress, ctype := idx%2 == 1, []string{"zlib", "lz4"}[(idx/2)%2]
+		if compress {
+			res.Hit("compressed-bodies:" + ctype)
+		}
 		if fc != nil {
-			fwd, err = statsd.NewHttpForwarderHandlerV2(logger, "default", "http://up", c.Cfg.Slots, c.Cfg.Reqs, c.Cfg.Merge, false, "zlib", 0, w, time.Second, nil, dyn, pool, fc)
+			fwd, err = statsd.NewHttpForwarderHandlerV2(logger, "default", "http://up", c.Cfg.Slots, c.Cfg.Reqs, c.Cfg.Merge, compress, ctype, 0, w, time.Second, nil, dyn, pool, fc)
 		} else {
-			fwd, err = statsd.NewHttpForwarderHandlerV2(logger, "default", "http://up", c.Cfg.Slots, c.Cfg.Reqs, c.Cfg.Merge, false, "zlib", 0, w, time.Second, nil, dyn, pool, nil)
+			fwd, err = statsd.NewHttpForwarderHandlerV2(logger, "default", "http://up", c.Cfg.Slots, c.Cfg.Reqs, c.Cfg.Merge, compress, ctype, 0, w, time.Second, nil, dyn, pool, nil)
 		}
 		if err != nil {
 			t.Fatal(err)
@@ -263,6 +279,10 @@ func runSchedule(t *testing.T, tw *trace.Writer, c *scase, idx int, res *vh.Resu
 				hv := ""
 				if c.Cfg.Dyn {
 					hv = fmt.Sprintf("r%d", o.K)
+					if o.K%2 == 1 { // a value that itself holds the separator (host:port, a URN): the header carries all of it
+						hv += ":p"
+						res.Hit("header-value-with-colon")
+					}
 					tags = append(tags, "region:"+hv)
 				}
 				if o.Op == "dispbad" {
